@@ -22,9 +22,24 @@ mod pool;
 mod worker;
 #[path = "c19/concrete.rs"]
 mod concrete;
+#[path = "c19/checkalloc.rs"]
+mod checkalloc;
+
+/// checks allocator discipline in the `--worker` children (where the loader's real code runs); switched off in the parent
+#[global_allocator]
+static GLOBAL: checkalloc::Checking = checkalloc::Checking;
 use pool::{Cfg, RealResp, WorkerPool};
 
-const POOL: [&str; 10] = [
+macro_rules! rep4 {
+    ($s:expr) => {
+        concat!($s, $s, $s, $s)
+    };
+}
+/// a long source: 1024 fields (≈ 4 KB; a history that parses and emits it costs ≈ 10 ordinary ones, so it is drawn rarely)
+const LONG: &str = concat!("query Long { ", rep4!(rep4!(rep4!(rep4!(rep4!("abc "))))), "}");
+const LONG_IX: usize = 15;
+
+const POOL: [&str; 19] = [
     "query Q { a }",
     "#import F from \"./f.graphql\"\nquery Q { ...F }",
     "#import G from \"./g.graphql\"\nfragment F on T { x ...G }",
@@ -35,6 +50,17 @@ const POOL: [&str; 10] = [
     "#import * from \"../p/g.graphql\"\n#import F from \"./f.graphql\"\nquery R { ...F ...G }",
     "#import * from \"./f.graphql\"\n#import * from \"./f.graphql\"\nquery Q { a }",
     "#import F from \"./f.graphql\"\nfragment G on T { y ...F }",
+    // 10… texts as they come out of checkouts and editors: CRLF / mixed / lone CR line terminators (also inside block
+    // strings), a byte-order mark, non-ASCII characters, a long text, an empty and a blank text
+    "#import F from \"./f.graphql\"\r\nquery Q {\r\n  ...F\r\n}\r\n",
+    "fragment F on T {\r\n  z\r\n}\r\n",
+    "fragment F on T {\r\n  x(a: \"\"\"l1\r\nl2\nl3\rl4\"\"\")\n}\r",
+    "\u{FEFF}query Q { a }",
+    "# caf\u{e9} \u{2603} \u{1d4b3}\nquery Q { a(s: \"h\u{e9}llo \u{2603} \u{1d4b3}\") }\r\n",
+    LONG,
+    "",
+    " \r\n\t\r\n",
+    "#import G from \"./g.graphql\"\r\nfragment F on T { x ...G }\n# trailing comment\r\n",
 ];
 const PATHS: [&str; 5] = ["/p/op.graphql", "/p/f.graphql", "/p/g.graphql", "/q/op.graphql", "/q/f.graphql"];
 
@@ -170,6 +196,7 @@ fn src_class(s: usize) -> &'static str {
         1 | 2 | 7 | 9 => "import",
         4 | 8 => "invalid",
         5 => "missing-fragment",
+        10..=18 => "odd-text",
         _ => "n/a",
     }
 }
@@ -399,7 +426,7 @@ fn canon(r: &RealResp) -> Sexp {
         RealResp::Trap { .. } | RealResp::Dead => Sexp::call("trap", vec![]),
         RealResp::Bad(t) => Sexp::call("bad", vec![Sexp::str(t.as_str())]),
         // answers of the ops of stream `emit-concrete` (c19/concrete.rs); never produced for the histories of this file
-        RealResp::Cfg(_) | RealResp::JsText(_) | RealResp::ResText(_) => Sexp::call("bad", vec![Sexp::str(r.to_json().to_string())]),
+        RealResp::Cfg(_) | RealResp::JsText(_) | RealResp::ResText(_) | RealResp::Leak(_) => Sexp::call("bad", vec![Sexp::str(r.to_json().to_string())]),
     }
 }
 
@@ -414,6 +441,13 @@ fn resp_eq(a: &RealResp, b: &RealResp) -> bool {
 
 fn show(r: &RealResp) -> String {
     r.to_json().to_string()
+}
+
+/// kind of an allocator-discipline violation in a worker's last words (`a alloc-violation kind=<kind> …`)
+pub fn alloc_kind(why: &str) -> Option<&str> {
+    let at = why.find("alloc-violation kind=")? + "alloc-violation kind=".len();
+    let rest = &why[at..];
+    Some(&rest[..rest.find(|c: char| c == ' ' || c == ';').unwrap_or(rest.len())])
 }
 
 /// history realising a model emission token `("root" ("path" i)|("path" missing) …)`
@@ -654,7 +688,10 @@ impl Ctx {
                 match (op, r) {
                     (_, RealResp::Trap { why }) => {
                         trapped = true;
-                        if *op == Op::G && !book.has_result {
+                        if let Some(kind) = alloc_kind(why) {
+                            o_broken = true;
+                            fail(format!("alloc:{kind}"), format!("allocator discipline violated (checking allocator of the worker): {why}"));
+                        } else if *op == Op::G && !book.has_result {
                             misuse += 1; // documented protocol misuse (DESIGN §9 row am), not a failure
                         } else {
                             o_broken = true;
@@ -748,7 +785,19 @@ impl Ctx {
             if let Some(RealResp::Trap { why }) = real.get(h.len()) {
                 o_broken = true;
                 trapped = true;
-                findings.push(Finding { stream: "O", sig: "trap:thread-exit:n/a:n/a".into(), what: format!("after [{}]: {why}", hist_text(h)), at: h.len().saturating_sub(1) });
+                let sig = match alloc_kind(why) {
+                    Some(kind) => format!("alloc:{kind}"),
+                    None => "trap:thread-exit:n/a:n/a".into(),
+                };
+                findings.push(Finding { stream: "O", sig, what: format!("after [{}] (the instance's thread exits, the remaining tasks are dropped): {why}", hist_text(h)), at: h.len().saturating_sub(1) });
+            }
+        }
+        // nothing leaked: every block the history allocated is gone once its loader instance is gone
+        kinds.insert("alloc");
+        if !trapped {
+            if let Some(RealResp::Leak(desc)) = real.last() {
+                o_broken = true;
+                findings.push(Finding { stream: "O", sig: "alloc:leak".into(), what: format!("after [{}] and the end of its loader instance, blocks it allocated are still live: {desc}", hist_text(h)), at: h.len().saturating_sub(1) });
             }
         }
         // isolation: every issued task answers as it does alone
@@ -871,7 +920,21 @@ fn corpus() -> Vec<History> {
         vec![I(0, 1), R(1), L(1, 1, 2), R(1), E(1), I(0, 4), G, L(1, 2, 3), E(1), F(1), E(1), F(1), R(7)],
         // two live tasks with different sources for the same path; re-supplied root
         vec![I(0, 1), I(0, 1), L(1, 1, 6), L(2, 1, 2), L(2, 2, 3), E(1), E(2), G, L(1, 0, 0), E(1), R(1), R(2)],
+        // odd texts (CRLF, mixed, BOM, non-ASCII, long, empty, blank) as root and as loaded file; freed, re-supplied, dropped
+        // with the instance
+        vec![I(0, 10), R(1), L(1, 1, 11), R(1), E(1), G, F(1), E(1)],
+        vec![I(0, 10), L(1, 1, 12), E(1), L(1, 1, 18), R(1), L(1, 2, 3), E(1)],
+        vec![I(0, 13), R(1), E(1), F(1), I(0, 14), E(2), G, F(2)],
+        vec![I(0, 15), E(1), L(1, 1, 15), E(1), F(1)],
+        vec![I(0, 16), R(1), E(1), I(0, 17), E(2), L(1, 1, 16), L(2, 1, 17), F(2), F(1)],
+        vec![I(0, 1), L(1, 1, 11), L(1, 1, 12), L(1, 1, 11), E(1), I(3, 10), L(2, 4, 14), E(2)],
     ]
+}
+
+/// calls over the odd texts of the pool (without the long one)
+fn odd_alphabet() -> Vec<Op> {
+    use Op::*;
+    vec![I(0, 10), I(0, 13), L(1, 1, 11), L(1, 1, 12), L(1, 1, 14), L(1, 1, 16), R(1), E(1), F(1)]
 }
 
 fn full_alphabet() -> Vec<Op> {
@@ -923,6 +986,16 @@ fn decode(alpha: &[Op], n: usize, mut idx: u64) -> History {
     h
 }
 
+/// any source of the pool; the long one eight times less often
+fn pick_source(rng: &mut Rng) -> usize {
+    loop {
+        let s = rng.below(POOL.len());
+        if s != LONG_IX || rng.chance(1, 8) {
+            return s;
+        }
+    }
+}
+
 fn random_history(rng: &mut Rng, info: &[ParseInfo]) -> History {
     let len = rng.range(5, 40) as usize;
     let mut book = Book::new(info);
@@ -933,7 +1006,7 @@ fn random_history(rng: &mut Rng, info: &[ParseInfo]) -> History {
             if book.live.len() >= 4 {
                 continue;
             }
-            Op::I(rng.below(PATHS.len()), rng.below(POOL.len()))
+            Op::I(rng.below(PATHS.len()), pick_source(rng))
         } else if x >= 95 {
             if book.has_result || rng.chance(1, 200) {
                 Op::G
@@ -957,9 +1030,9 @@ fn random_history(rng: &mut Rng, info: &[ParseInfo]) -> History {
             } else if x < 65 {
                 let wanted: Vec<usize> = book.required(t).iter().filter_map(|p| path_index(p)).collect();
                 if !wanted.is_empty() && rng.chance(7, 10) {
-                    Op::L(t, *rng.pick(&wanted), *rng.pick(&[2, 3, 6, 9]))
+                    Op::L(t, *rng.pick(&wanted), *rng.pick(&[2, 3, 6, 9, 11, 12, 18]))
                 } else {
-                    Op::L(t, rng.below(PATHS.len()), rng.below(POOL.len()))
+                    Op::L(t, rng.below(PATHS.len()), pick_source(rng))
                 }
             } else if x < 85 {
                 Op::E(t)
@@ -1028,6 +1101,7 @@ fn main() {
         worker::main(argv.iter().any(|a| a == "--careful"));
         return;
     }
+    checkalloc::disable();
     let args = Args::parse();
     let t0 = std::time::Instant::now();
     let info: Vec<ParseInfo> = POOL.iter().map(|s| parse_info(s)).collect();
@@ -1130,6 +1204,13 @@ fn main() {
         full_counts.push(json!({ "len": n, "run": run, "skipped_get_result_misuse": skipped }));
     }
     let (red_run, _) = exhaustive(&mut ctx, &mut fd, &reduced, red_n, "exhaustive-reduced");
+    // 2b. odd texts: all sequences over 9 calls that supply / use / free CRLF, mixed, BOM, non-ASCII, long, empty texts
+    let odd = odd_alphabet();
+    let odd_n = if thorough { 5 } else { 4 };
+    let mut odd_run = 0;
+    for n in 1..=(if std::env::var("C19_SKIP_ODD").is_ok() { 0 } else { odd_n }) {
+        odd_run += exhaustive(&mut ctx, &mut fd, &odd, n, "exhaustive-odd-texts").0;
+    }
 
     // 3. random sample of FULL sequences of length 4 (quick only: thorough has them all)
     let sample4 = if thorough { 0 } else { 20_000 };
@@ -1180,6 +1261,9 @@ fn main() {
     ctx.rep.extra.insert("exhaustive_reduced_len".into(), json!(red_n));
     ctx.rep.extra.insert("exhaustive_full_counts".into(), json!(full_counts));
     ctx.rep.extra.insert("exhaustive_reduced_count".into(), json!(red_run));
+    ctx.rep.extra.insert("exhaustive_odd_texts_len".into(), json!(odd_n));
+    ctx.rep.extra.insert("exhaustive_odd_texts_count".into(), json!(odd_run));
+    ctx.rep.extra.insert("odd_texts_alphabet".into(), json!(odd.iter().map(|o| o.text()).collect::<Vec<_>>()));
     ctx.rep.extra.insert("sample_full4_count".into(), json!(sample4));
     ctx.rep.extra.insert("random_long_count".into(), json!(n_random));
     ctx.rep.extra.insert("full_alphabet".into(), json!(full.iter().map(|o| o.text()).collect::<Vec<_>>()));
@@ -1201,6 +1285,13 @@ fn finish(mut ctx: Ctx, args: &Args, t0: std::time::Instant) {
     ctx.rep.o_cases += 1; // lencap
     ctx.rep.extra.insert("lencap_checks".into(), json!(st.lencap_checks));
     ctx.rep.extra.insert("lencap_violations".into(), json!(st.lencap_violations));
+    ctx.rep.extra.insert("alloc_checked_frees".into(), json!(st.alloc_checked_frees));
+    ctx.rep.extra.insert("alloc_leak_checks".into(), json!(st.alloc_leak_checks));
+    ctx.rep.extra.insert("alloc_leak_reruns_first_use_initialisation".into(), json!(st.alloc_leak_reruns));
+    ctx.rep.extra.insert("alloc_string_header_leaks_not_recorded".into(), json!(st.alloc_string_headers));
+    if st.alloc_table_overflows > 0 {
+        ctx.rep.fail("K", "alloc-table-overflow", &format!("{} workers filled the checking allocator's table (checks switched off from then on): enlarge SLOTS in c19/checkalloc.rs", st.alloc_table_overflows), json!({ "ops": [] }));
+    }
     ctx.rep.extra.insert("workers".into(), json!(ctx.wp.size()));
     ctx.rep.extra.insert("worker_processes_spawned".into(), json!(st.spawned));
     ctx.rep.extra.insert("worker_deaths".into(), json!(st.deaths));
@@ -1217,6 +1308,7 @@ fn finish(mut ctx: Ctx, args: &Args, t0: std::time::Instant) {
     ctx.rep.notes.push("The real ABI functions (alloc_string, free_string, initiate_task, get_required_files, load_file, emit_js, free_task, get_result_ptr, get_result_size) ran in child processes (`c19 --worker`), one fresh thread (= fresh thread-local loader instance) per history, because a panic inside an `extern \"C\"` function aborts the process and cannot be caught; a child death is attributed to the exact call by re-running the history alone in a child that flushes after every call.".into());
     ctx.rep.notes.push("len==capacity check: for every string passed through the ABI the worker mirrors the loader's constructions and checks String::with_capacity(n).capacity() == n (alloc_string/free_string rebuild the String from (ptr, 0, n)) and that String::from_utf8(bytes.to_vec()) has len == capacity (read_str_ptr → register_file records (ptr,len,capacity) and then calls into_boxed_str, which must not reallocate). Counters of workers that died (get-result misuse) are lost; counts are of the surviving workers.".into());
     ctx.rep.notes.push("Emit equality (history under test vs fresh task, and vs the realisation of the model's token) is by 64-bit FNV-1a hash plus byte length of the emitted text, or equality of the error message.".into());
+    ctx.rep.notes.push("Allocator discipline on the REAL code: the worker children run under a checking global allocator (c19/checkalloc.rs: every live block recorded with its layout; realloc always moves; released blocks poisoned and quarantined). dealloc/realloc of a pointer that is not live (double-free, free-of-unknown-pointer) or with another layout (layout-mismatch) aborts the child with `alloc-violation kind=…` → O failure alloc:<kind> at the exact call; after every history (fresh thread = fresh loader instance, joined, its thread-locals dropped) every block the history allocated must be gone — the 24-byte Box<String> header that alloc_string leaks per string (documented, outside the statement) is not recorded, and a history that leaves blocks behind is run a second time so that once-per-process initialisation does not count — otherwise O failure alloc:leak. alloc_checked_frees / alloc_leak_checks count the checks of the surviving workers.".into());
     ctx.rep.notes.push("Miri/ASan were not run (optional in DESIGN): allocator-level safety of the raw-parts code is observed only as \"no abort / no crash of the worker\", including the drop of the remaining tasks at thread exit.".into());
     ctx.rep.notes.push("A `G` (get_result_ptr/size) before any result was stored unwraps None and aborts: documented protocol misuse (DESIGN §9 row am; the JS side never does it). Model `(trap)` + real death there is K agreement and is counted as misuse:get-result-before-any-result, not as an O failure. Exhaustive sequences longer than 2 that contain such a G are skipped to keep child restarts rare.".into());
     ctx.rep.write(args);
